@@ -326,6 +326,39 @@ pub fn enumerate_images(unsynced: &[W], size_changed: bool, pagesize: u64, rng: 
                 out.push(ImageSpec { parts, size_applied: *sa, desc: format!("all writes but write {} whose first {} bytes were lost{}", j, cut, if *sa { "" } else { ", size change lost" }) });
             }
         }
+        // header record torn at 8-byte word granularity, any subset of words: every single word
+        // missing, every single word alone, and seeded subsets (the rest of the page persists or not)
+        if is_header(w) && n >= 104 {
+            let words = 13usize; // bytes 0..104 hold the page header and the meta record
+            let others: Vec<(usize, Vec<(usize, usize)>)> = (0..k).filter(|i| *i != j).map(|i| (i, full(&unsynced[i]))).collect();
+            let mut subsets: Vec<(Vec<bool>, String)> = Vec::new();
+            for wi in 0..words {
+                let mut all = vec![true; words];
+                all[wi] = false;
+                subsets.push((all, format!("header write {} with word {} (bytes {}..{}) not persisted", j, wi, wi * 8, wi * 8 + 8)));
+                let mut one = vec![false; words];
+                one[wi] = true;
+                subsets.push((one, format!("header write {} with only word {} persisted", j, wi)));
+            }
+            for r in 0..24 {
+                let bits: Vec<bool> = (0..words).map(|_| rng.chance(1, 2)).collect();
+                subsets.push((bits, format!("header write {} with a random subset of its words (#{})", j, r)));
+            }
+            for (bits, desc) in subsets {
+                let mut ranges: Vec<(usize, usize)> = Vec::new();
+                for (wi, b) in bits.iter().enumerate() {
+                    if *b {
+                        ranges.push((wi * 8, wi * 8 + 8));
+                    }
+                }
+                if rng.chance(1, 2) {
+                    ranges.push((words * 8, n));
+                }
+                let mut parts = others.clone();
+                parts.push((j, ranges));
+                out.push(ImageSpec { parts, size_applied: true, desc });
+            }
+        }
         // seeded sector subset of this write with all others persisted / none persisted
         if n > 512 {
             let sectors = (n + 511) / 512;
